@@ -140,6 +140,13 @@ def drive(rec):
             return t
         name = {"cif": "x.cif", "res": "x.res", "poscar": "POSCAR"}[fmt]
         path = os.path.join(d, name)
+        if rec.get("written_before"):
+            # the object has already been exported (in every format) before the writing that is judged
+            for w in (cr.to_poscar_string, cr.to_cif_string, cr.to_shelx_string, cr.to_poscar_string):
+                try:
+                    w()
+                except Exception:
+                    pass
         try:
             if via == "file":
                 cr.save(path)
@@ -186,6 +193,14 @@ def gen(args):
     # label variants: element symbol + digits + optional suffix
     for i, s in enumerate(asym):
         s["label"] = "%s%d%s" % (xtal.SYMBOLS[s["z"]], rng.randint(1, 99), rng.choice(["", "", "A", "B", "a"]))
+    if rng.random() < 0.25:
+        # atom names in the style of protein / porphyrin structures: the letters after the first are a position code, not
+        # part of an element symbol (CA is a carbon, HG1 a hydrogen, NA a nitrogen)
+        stems = {1: ["HA", "HB", "HG", "HE", "HO", "HN", "HD", "HF"], 6: ["CA", "CB", "CD", "CE", "CG", "CZ", "CO"],
+                 7: ["NA", "NB", "NE", "NZ", "ND"], 8: ["OG", "OH", "OW", "OE", "OD", "OS"], 9: ["FA", "FB"],
+                 15: ["PA", "PB", "PG"], 16: ["SG", "SD", "SB"], 17: ["CL"], 26: ["FE"], 35: ["BR"]}
+        for i, s in enumerate(asym):
+            s["label"] = "%s%d" % (rng.choice(stems[s["z"]]), i + 1)
     if len({s["label"] for s in asym}) != len(asym):
         for i, s in enumerate(asym):
             s["label"] = "%s%d" % (xtal.SYMBOLS[s["z"]], i + 1)
@@ -196,7 +211,7 @@ def gen(args):
         # large cells: the longest edge between 25 and 99 Angstrom (fixed-width number fields get full)
         u = rng.uniform(25.0, 99.0) / math.sqrt(max(gram[i][i] for i in range(3)))
     rec = {"number": row["number"], "choice": row["choice"], "n": n, "gram": gram, "u": u, "asym": asym, "fmt": fmt, "via": via,
-           "provenance": prov, "route": rng.choice(["params", "vectors"])}
+           "provenance": prov, "route": rng.choice(["params", "vectors"]), "written_before": rng.random() < 0.4}
     if fmt == "poscar" and rng.random() < 0.4:
         # a POSCAR stores lattice vectors: the crystal may hold them in any orientation
         from harness.c13 import rand_rotation
